@@ -648,8 +648,9 @@ class IteratorQueue(IterableQueue[_ValueT]):
           logging.debug(
               'chainable: %s', f'"{self.name}" dequeue empty, got {len(result)}'
           )
-          # By the time the lock is re-acquired, the queue may have elements.
-          if not self._queue.empty():
+          # By the time the lock is re-acquired, the queue may have elements or
+          # the enqueuers may have finished (their notification is then missed).
+          if not self._queue.empty() or self.enqueue_done:
             continue
           if self._dequeue_lock.wait(timeout=self.timeout):
             continue
